@@ -453,6 +453,18 @@ type scraped struct {
 }
 
 func scrape(store *metrics.Store) (map[string]scraped, error) {
+	g, err := newScraper(store)
+	if err != nil {
+		return nil, err
+	}
+	return g()
+}
+
+// newScraper registers ONE exporter for the store; the function it returns
+// gathers it, any number of times (a real mtail is scraped again and again by
+// the same collector: whatever it remembers from one scrape must not show in
+// the next).
+func newScraper(store *metrics.Store) (func() (map[string]scraped, error), error) {
 	e, err := exporter.New(context.Background(), store, exporter.Hostname("h"), exporter.DisableExport())
 	if err != nil {
 		return nil, err
@@ -461,6 +473,10 @@ func scrape(store *metrics.Store) (map[string]scraped, error) {
 	if err := reg.Register(e); err != nil {
 		return nil, err
 	}
+	return func() (map[string]scraped, error) { return gather(reg) }, nil
+}
+
+func gather(reg *prometheus.Registry) (map[string]scraped, error) {
 	mfs, err := reg.Gather()
 	if err != nil {
 		return nil, err
@@ -533,6 +549,7 @@ func runExpWith(out *vlib.Out, r *vlib.Rand, bs []float64, obsFor func([]float64
 		maxes = append(maxes, x.Max)
 	}
 	obs := map[string][]float64{}
+	var data []datum.Datum
 	for _, l := range labels {
 		var d datum.Datum
 		var err error
@@ -546,11 +563,41 @@ func runExpWith(out *vlib.Out, r *vlib.Rand, bs []float64, obsFor func([]float64
 		}
 		vs := obsFor(maxes)
 		obs[l] = vs
-		for k, v := range vs {
-			observeVia(d, v, time.Unix(int64(2000+k), 0), k)
+		data = append(data, d)
+	}
+	// the store is scraped by the same collector half-way through the
+	// observations as well; in half of the cases the later observations carry
+	// the time stamp of the last one before that scrape (log lines of one second)
+	gatherIt, err := newScraper(store)
+	if err != nil {
+		out.Violate("scrape-failed", err.Error(), map[string]any{"kind": "exp", "src": src})
+		return
+	}
+	sameStamp := r.Bool()
+	for phase := 0; phase < 2; phase++ {
+		for i, l := range labels {
+			vs := obs[l]
+			half := len(vs) / 2
+			lo, hi := 0, half
+			if phase == 1 {
+				lo, hi = half, len(vs)
+			}
+			for k := lo; k < hi; k++ {
+				ts := int64(2000 + k)
+				if phase == 1 && sameStamp && half > 0 {
+					ts = int64(2000 + half - 1)
+				}
+				observeVia(data[i], vs[k], time.Unix(ts, 0), k)
+			}
+		}
+		if phase == 0 {
+			if _, err := gatherIt(); err != nil {
+				out.Violate("scrape-failed", err.Error(), map[string]any{"kind": "exp", "src": src})
+				return
+			}
 		}
 	}
-	got, err := scrape(store)
+	got, err := gatherIt()
 	if err != nil {
 		out.Violate("scrape-failed", err.Error(), map[string]any{"kind": "exp", "src": src})
 		return
